@@ -282,6 +282,29 @@ fn wl_c08(seed: u64, tier: &str) -> Vec<Vec<Value>> {
                 ops.push(json!({"op": "repr", "f": f.name, "fn": "shl", "a": nat(a), "n": n}));
             }
         }
+        // pairs that agree everywhere except in the top bit of one word (a difference of 2^63 in the first
+        // differing word: comparison by subtraction overflows there), also as reduced field elements
+        for i in 0..f.nw {
+            for _ in 0..3 {
+                let mut a = rand_elem(&mut r, f);
+                let mut b = a.clone();
+                a[i] &= !(1u64 << 63);
+                b[i] |= 1u64 << 63;
+                if i == f.nw - 1 {
+                    // keep both below the modulus: use the highest bit available in the top word
+                    let hb = (f.bits - 2) % 64;
+                    a[i] &= (1u64 << hb) - 1;
+                    b[i] = a[i] | (1u64 << hb);
+                }
+                for (x, y) in [(&a, &b), (&b, &a)].iter() {
+                    ops.push(json!({"op": "repr", "f": f.name, "fn": "cmp", "a": nat(x), "b": nat(y), "cls": "top-bit-of-a-word"}));
+                    if w_lt(x, &f.p) && w_lt(y, &f.p) {
+                        ops.push(json!({"op": "fp", "f": f.name, "fn": "cmp", "a": nat(x), "b": nat(y), "cls": "top-bit-of-a-word"}));
+                        ops.push(json!({"op": "fp", "f": f.name, "fn": "sub", "a": nat(x), "b": nat(y), "cls": "top-bit-of-a-word"}));
+                    }
+                }
+            }
+        }
         for _ in 0..(if thorough { 3000 } else { 300 }) {
             let a = r.pick(&rv).clone();
             let b = r.pick(&rv).clone();
@@ -300,6 +323,8 @@ fn wl_c08(seed: u64, tier: &str) -> Vec<Vec<Value>> {
                 let b = r.bytes(*len);
                 ops.push(json!({"op": "repr", "f": f.name, "fn": "read_be", "bytes": bytes_to_j(&b)}));
                 ops.push(json!({"op": "repr", "f": f.name, "fn": "read_le", "bytes": bytes_to_j(&b)}));
+                ops.push(json!({"op": "repr", "f": f.name, "fn": "read_be", "bytes": bytes_to_j(&b), "dirty": true, "cls": "non-zero-destination"}));
+                ops.push(json!({"op": "repr", "f": f.name, "fn": "read_le", "bytes": bytes_to_j(&b), "dirty": true, "cls": "non-zero-destination"}));
                 // the same bytes from readers that deliver them in pieces
                 for chunk in [1u64, 7, 8, 13, 8 * f.nw as u64 - 1].iter() {
                     ops.push(json!({"op": "repr", "f": f.name, "fn": "read_be", "bytes": bytes_to_j(&b), "reader": chunk, "cls": "piecewise-reader"}));
@@ -725,6 +750,37 @@ fn wl_c18(seed: u64, tier: &str) -> Vec<Vec<Value>> {
     let thorough = tier == "thorough";
     let mut sessions: Vec<Vec<Value>> = vec![];
     let mut r = Rng(seed.wrapping_mul(1313) ^ 18);
+    {
+        // Fq2 ordering on pairs whose coefficients agree except in the top bit of one word (either
+        // coefficient), and small against all-ones words
+        let fq = fq_info();
+        let mut ops = vec![];
+        let z = zero_w(&fq);
+        let specials: Vec<W> = vec![w_add_small(&z, 1), w_ones(64, 6), w_ones(63, 6), w_pow2(63, 6), w_ones(128, 6), w_pow2(127, 6)];
+        for a in specials.iter() {
+            for b in specials.iter() {
+                ops.push(ext2("Fq2", "cmp", &f2(&z, a), &f2(&z, b)));
+                ops.push(ext2("Fq2", "cmp", &f2(a, &specials[0]), &f2(b, &specials[0])));
+            }
+        }
+        for i in 0..6 {
+            for k in 0..2 {
+                let mut a = rand_elem(&mut r, &fq);
+                let mut b = a.clone();
+                let hb = if i == 5 { 58 } else { 63 };
+                a[i] &= (1u64 << hb) - 1;
+                b[i] = a[i] | (1u64 << hb);
+                let c = rand_elem(&mut r, &fq);
+                let (x, y) = if k == 0 { (f2(&a, &c), f2(&b, &c)) } else { (f2(&c, &a), f2(&c, &b)) };
+                ops.push(ext2("Fq2", "cmp", &x, &y));
+                ops.push(ext2("Fq2", "cmp", &y, &x));
+            }
+        }
+        for o in ops.iter_mut() {
+            o.as_object_mut().unwrap().insert("cls".into(), json!("top-bit-of-a-word"));
+        }
+        sessions.push(ops);
+    }
     for f in [fq_info(), fr_info()].iter() {
         let cat = catalogue(f);
         let mut ops = vec![];
@@ -1255,6 +1311,27 @@ where
             sessions.push(std::mem::replace(&mut ops, vec![]));
         }
     }
+    // scalars at and above r on points OUTSIDE the order-r subgroup ([k]P and [k mod r]P differ there)
+    {
+        let fr = fr_info();
+        let big: Vec<(W, &str)> = vec![(fr.p.clone(), "r"), (w_add_small(&fr.p, 1), "r+1"), (w_add_small(&fr.p, 12345), "r+12345"),
+                                       (w_ones(256, 4), "2^256-1"), (w_or(&fr.p, &w_pow2(255, 4)), "r+2^255"), (w_pow2(255, 4), "2^255")];
+        for (pi, (p, pc)) in pool.iter().enumerate() {
+            if !["full-order", "order-3", "small-x", "small-x-c1"].contains(pc) {
+                continue;
+            }
+            for (bi, (k, kc)) in big.iter().enumerate() {
+                if !thorough && !is1 && (pi + bi) % 3 != 0 {
+                    continue;
+                }
+                ops.push(json!({"op": "smul", "g": g, "p": proj_to_j(p), "k": nat(k), "windows": [4],
+                                "log_digits": false, "pre256_idx": [1, 128], "cls": format!("{}/{}", kc, pc)}));
+                if ops.len() >= per {
+                    sessions.push(std::mem::replace(&mut ops, vec![]));
+                }
+            }
+        }
+    }
     if thorough {
         // the largest windows, a few cases only (tables of 2^21 points)
         for w in [17u64, 19, 21, 22].iter() {
@@ -1333,6 +1410,12 @@ where
     let gen_e2 = endo_img::<G>(&gen, true);
     let full: Vec<G::Affine> = (0..2).map(|_| full_order_point::<G>(r)).collect();
     let zero = <G::Affine as CurveAffine>::zero();
+    let tiny: G::Affine = if is1 {
+        let z = vec![0u64; 6];
+        j_to_proj::<G>(&json!([nat(&z), nat(&w_add_small(&z, 2)), nat(&w_add_small(&z, 1))])).into_affine()
+    } else {
+        small_x_point::<G>(1, false)
+    };
     let mut neg0 = sub[0];
     neg0.negate();
     let aj = |p: &G::Affine| aff_to_j(p);
@@ -1377,6 +1460,14 @@ where
         // same ordinate, different abscissa
         ("same-ordinate", vec![aj(&gen), aj(&gen_e), aj(&gen_e2)],
             vec![rand_scalar_bits(r, 255), rand_scalar_bits(r, 255), LAMBDA.to_vec()]),
+        // a point of tiny order (G1: (0, 2) of order 3; G2: a curve point with small abscissa) with scalars
+        // made of a few of the bits 2^(32 k) (entries of a precomputed table that are the identity)
+        ("small-order", vec![aj(&tiny), aj(&gen), aj(&zero)],
+            vec![w_or(&w_or(&w_pow2(0, 4), &w_pow2(32, 4)), &w_pow2(64, 4)), w_pow2(33, 4),
+                 w_or(&w_pow2(96, 4), &w_pow2(128, 4))]),
+        ("small-order-2", vec![aj(&tiny), aj(&tiny)],
+            vec![w_or(&w_or(&w_pow2(0, 4), &w_pow2(32, 4)), &w_or(&w_pow2(64, 4), &w_or(&w_pow2(96, 4), &w_or(&w_pow2(128, 4), &w_pow2(160, 4))))),
+                 rand_scalar_bits(r, 255)]),
     ];
     // scalars of the catalogue (below 2^255): zero words inside, word boundaries, r-1, lambda, ...
     let mut shapes = shapes;
@@ -1518,6 +1609,44 @@ fn wl_c10(seed: u64, tier: &str) -> Vec<Vec<Value>> {
 }
 
 pub fn generate(name: &str, seed: u64, tier: &str) -> Vec<Vec<Value>> {
+    let mut sessions = generate_base(name, seed, tier);
+    // "first call on a thread": sessions run on FRESH threads that start with one variant (group,
+    // field, expander, ...) and continue with the other - lazily initialised per-thread state must not
+    // depend on which variant came first.  Built from stateless operations already in the workload.
+    let stateless = |o: &Value| !["cm", "wn", "st"].contains(&o["op"].as_str().unwrap_or(""));
+    let key = |o: &Value| format!("{}|{}|{}", o["g"], o["f"], o["x"]);
+    let mut by: Vec<(String, Vec<Value>)> = vec![];
+    for s in sessions.iter() {
+        for o in s.iter().filter(|o| stateless(o) && o.get("xabort").is_none()) {
+            let k = key(o);
+            match by.iter_mut().find(|(kk, _)| *kk == k) {
+                Some((_, v)) => { if v.len() < 3 { v.push(o.clone()); } }
+                None => by.push((k, vec![o.clone()])),
+            }
+        }
+    }
+    if by.len() >= 2 {
+        let n = by.len();
+        for (a, b) in [(n - 1, 0usize), (0, n - 1), (n / 2, 0)].iter() {
+            if a == b {
+                continue;
+            }
+            let mut s: Vec<Value> = vec![];
+            s.extend(by[*a].1.iter().take(2).cloned());
+            s.extend(by[*b].1.iter().take(2).cloned());
+            s.extend(by[*a].1.iter().skip(2).cloned());
+            s.extend(by[*b].1.iter().skip(2).cloned());
+            for o in s.iter_mut() {
+                o.as_object_mut().unwrap().insert("cls".into(), json!("fresh-thread-variant-order"));
+            }
+            s[0].as_object_mut().unwrap().insert("fresh_thread".into(), json!(true));
+            sessions.push(s);
+        }
+    }
+    sessions
+}
+
+fn generate_base(name: &str, seed: u64, tier: &str) -> Vec<Vec<Value>> {
     match name {
         "c01" => wl_c01(seed, tier),
         "c02" => wl_c02(seed, tier),
